@@ -168,6 +168,12 @@ func stalledReceive(c *runner.Cfg, res *report.Result, logger *netx.RecLogger) {
 		}
 		check := func(b []byte, phase string) bool {
 			id, dir, seq, _, full := netx.Describe(b)
+			if full && id == reqID && dir == 1 && int(seq) == next && len(b) == size && !netx.CheckPayload(b, reqID, 1, seq) {
+				w["position"], w["phase"] = next, phase
+				res.Violate("c03:stalled-receive:message-corrupted", fmt.Sprintf("receiver with a %s context: message %d (len %d) arrived with the right header and a body that differs from what was sent", kind, seq, len(b)), w)
+				lost = true
+				return false
+			}
 			if !full || id != reqID || dir != 1 || int(seq) != next || len(b) != size {
 				w["position"], w["received_sequence_number"], w["phase"], w["in_flight_before_stall"] = next, seq, phase, inFlight
 				res.Violate("c03:stalled-receive:message-lost-or-reordered", fmt.Sprintf("receiver with a %s context and a stalled outbound direction: position %d of the sequence carries message %d (len %d): a message that Receive had already taken from the queue was dropped", kind, next, seq, len(b)), w)
@@ -345,6 +351,10 @@ func laggingReceiver(c *runner.Cfg, res *report.Result, logger *netx.RecLogger) 
 				if next == sh.count {
 					wantLen = 100
 				}
+				if full && id == reqID && dir == 1 && int(seq) == next && len(b) == wantLen && !netx.CheckPayload(b, reqID, 1, seq) {
+					done <- fmt.Sprintf("corrupted: position %d carries message %d with the right header and length %d and a body that differs from what was sent (first difference at byte %d)", next, seq, len(b), firstDiff(b, reqID, 1, seq))
+					return
+				}
 				if !full || id != reqID || dir != 1 || int(seq) != next || len(b) != wantLen {
 					done <- fmt.Sprintf("position %d carries message %d (len %d, want len %d)", next, seq, len(b), wantLen)
 					return
@@ -381,4 +391,15 @@ func laggingReceiver(c *runner.Cfg, res *report.Result, logger *netx.RecLogger) 
 	}, func(idx int, p any, stack string) {
 		res.Violate("c03:"+runner.PanicKey(p, stack), fmt.Sprintf("panic in the lagging-receiver scenario: %v", p), runner.TrimStack(stack))
 	})
+}
+
+// firstDiff is the offset of the first byte of b that differs from the payload (ch, dir, seq).
+func firstDiff(b []byte, ch uint32, dir byte, seq uint32) int {
+	want := netx.MakePayload(ch, dir, seq, len(b))
+	for i := range b {
+		if b[i] != want[i] {
+			return i
+		}
+	}
+	return -1
 }
